@@ -5,13 +5,18 @@
    And at level 0, for every input and every sequence of deflate() calls (any chunking, any output
    lengths, flush None / Sync / Full / Finish, unconsumed input offered again, buffer-error returns
    included): when stream end is reported, everything received so far is a stream the RFC 1951 / 1950
-   specification decodes to exactly the input consumed.  Progress / termination under Finish are
+   specification decodes to exactly the input consumed - and which the streaming decoder wrapper inflate()
+   (model), driven with Finish on a fresh object as mz_uncompress does or through any sequence of non-Finish
+   calls, turns back into that input (C14_level0_deflate_output_inflates_back_partial: mz_deflate-style
+   production, mz_inflate-style consumption, both on the models).  Progress / termination under Finish are
    decided per explored run. *)
 From Coq Require Import NArith ZArith List.
 From MZ.lib Require Import Mach.
 From MZ.spec Require Import DeflateSpec.
 From MZ.model Require Import DeflateCore.
-From MZ.proofs Require Import Protocol StoredSpec StoredDeflate.
+From MZ.lib Require Import Arr.
+From MZ.model Require InflateStream.
+From MZ.proofs Require Import Protocol StoredSpec StoredDeflate InflateStoredStream StoredWrappersEndToEnd.
 Import ListNotations.
 Local Open Scope N_scope.
 
@@ -51,3 +56,28 @@ Example C14_a_deflate_schedule_that_ends :
   | _ => False
   end.
 Proof. vm_compute. reflexivity. Qed.
+
+Theorem C14_level0_deflate_output_inflates_back_partial :
+  (forall (data : list N) (cflags wb : N) (sched : list (N * N * N)) out n fmt out_len,
+   hasf cflags FLAG_RAW = true -> wb <= 15 -> bytes_ok data ->
+   Forall (fun it => legal_mz_flush (snd it)) sched ->
+   ddrive (comp_new cflags wb) data sched [] 0 = Ret (Some (out, n)) ->
+   zl_of fmt = hasf cflags FLAG_ZLIB ->
+   n < out_len -> out_len <= USIZE_MAX -> N.of_nat (length out) < 2 ^ 57 ->
+   exists r, InflateStream.inflate (InflateStream.is_new fmt) out out_len InflateStream.FL_FINISH = Ret r /\
+     InflateStream.sr_code r = InflateStream.MZ_STREAM_END /\ InflateStream.sr_in r = N.of_nat (length out) /\
+     InflateStream.sr_out r = firstn (N.to_nat n) data) /\
+  (forall (data : list N) (cflags wb : N) (sched : list (N * N * N)) out n fmt
+          (calls : list (list N * N * N)) later,
+   hasf cflags FLAG_RAW = true -> wb <= 15 -> bytes_ok data ->
+   Forall (fun it => legal_mz_flush (snd it)) sched ->
+   ddrive (comp_new cflags wb) data sched [] 0 = Ret (Some (out, n)) ->
+   zl_of fmt = hasf cflags FLAG_ZLIB ->
+   Forall (fun it : list N * N * N => snd it <> InflateStream.FL_FINISH /\ snd it <> InflateStream.FL_FULL) calls ->
+   concat (map (fun it : list N * N * N => fst (fst it)) calls) ++ later = out ->
+   N.of_nat (length out) < 2 ^ 57 -> n < 2 ^ 40 ->
+   exists codes acc s',
+     sfeed (InflateStream.is_new fmt) [] calls [] [] = Ret (codes, acc, s') /\
+     Forall code_ok codes /\ acc = firstn (length acc) (firstn (N.to_nat n) data) /\
+     (In InflateStream.MZ_STREAM_END codes -> acc = firstn (N.to_nat n) data)).
+Proof. split; [exact level0_deflate_then_inflate_finish|exact level0_deflate_then_inflate_calls]. Qed.
